@@ -192,29 +192,35 @@ static int on_event(void *ctx, const mpt::path *p, const mpt::value *val, int la
 // canon: depth, name bytes, value bytes per node in document order (binary, length prefixed); never addresses
 struct Snap { std::string canon; std::vector<const mpt::node *> nodes; bool ok; const char *why; Snap() : ok(true), why("") { canon.reserve(128); nodes.reserve(8); } };
 static void put(std::string &s, const void *p, size_t n) { uint32_t l = (uint32_t) n; s.append((const char *) &l, 4); if (n) s.append((const char *) p, n); }
-static void walk(const mpt::node *parent, const mpt::node *first, Snap &s, int depth)
+// iterative pre-order walk (the depth of a parsed tree is chosen by the input); tracked = nodes must be live ledger blocks
+static void snapshot(const mpt::node *root, Snap &s, bool tracked = true)
 {
-	const mpt::node *prev = 0;
-	for (const mpt::node *n = first; n; prev = n, n = n->next) {
-		if (depth > 12 || s.nodes.size() > 256) { s.ok = false; s.why = "walk does not end (cycle)"; return; }
-		if (!ledger_is_live(n)) { s.ok = false; s.why = "link to a node that is not allocated (any more)"; return; }
+	std::vector<const mpt::node *> up;      // ancestors of the current sibling list
+	const mpt::node *parent = root, *prev = 0, *n = root->children;
+	while (n) {
+		if (s.nodes.size() > 2000000) { s.ok = false; s.why = "walk does not end (cycle)"; return; }
+		if (tracked && !ledger_is_live(n)) { s.ok = false; s.why = "link to a node that is not allocated (any more)"; return; }
 		if (n->parent != parent || n->prev != prev) { s.ok = false; s.why = "parent/sibling links of a node are inconsistent"; return; }
 		s.nodes.push_back(n);
-		s.canon.push_back((char) ('0' + depth));
+		uint32_t depth = (uint32_t) up.size(); s.canon.append((const char *) &depth, 4);
 		const void *id = n->ident._len ? mpt::mpt_identifier_data(&n->ident) : 0;
 		s.canon.push_back(id ? 'N' : '-'); put(s.canon, id, id ? n->ident._len : 0);
 		size_t len = 0; const char *data = mpt::mpt_node_data(n, &len);
 		s.canon.push_back(data ? 'V' : '-'); put(s.canon, data, data ? len : 0);
-		walk(n, n->children, s, depth + 1);
-		if (!s.ok) return;
+		if (n->children) { up.push_back(n); parent = n; prev = 0; n = n->children; continue; }
+		while (n && !n->next && !up.empty()) { n = up.back(); up.pop_back(); }
+		if (!n->next) break;       // last top-level node
+		parent = up.empty() ? root : up.back();
+		prev = n; n = n->next;
 	}
 }
-static void snapshot(const mpt::node *root, Snap &s) { walk(root, root->children, s, 0); }
 static std::string pretty(const std::string &c)
 {
-	std::string o; size_t i = 0;
-	while (i + 10 <= c.size()) {
-		o += c[i++]; o += ':';
+	std::string o; size_t i = 0; int shown = 0;
+	while (i + 14 <= c.size()) {
+		uint32_t depth; memcpy(&depth, c.data() + i, 4); i += 4;
+		if (++shown > 40) { o += "..."; break; }
+		o += fmt("%u:", depth);
 		for (int k = 0; k < 2; ++k) { char t = c[i++]; uint32_t l; memcpy(&l, c.data() + i, 4); i += 4; if (t != '-') o += (k ? "=" : "") + show((const uint8_t *) c.data() + i, l); else if (!k) o += "-"; i += l; }
 		o += "; ";
 	}
@@ -492,6 +498,8 @@ static void run_case(Run &r, const Case &c, bool fail_first = false)
 //   long:<fmt>:<flags>                                  long-token shapes
 //   mut:<fmt>:<flags>                                   seed document with <= 2 token mutations
 //   dsc:<style>                                         format description sweep (0..6 comment x 0..5 escape characters) + documents, see body_dsc
+//   deep:<fmt>                                          10^3..10^5 nested sections / value-only lines, see body_deep
+//   reuse:<fmt>                                         two inputs through one parser_context, see body_reuse
 //   pad:<fmt>:<flags>                                   a run of n name characters (thorough: every n in 1..330) (as first name, or as value behind "b=") followed by every string
 //                                                       of length <= 2: sweeps the fill level of the growing path buffer across its allocation steps
 static int maxlen(Tier t, int fi, int ni)
@@ -515,6 +523,8 @@ void mc_jobs(Tier t, std::vector<std::string> &jobs)
 	for (int fi = 0; fi < NFMT; ++fi) for (int ni = 0; ni < nflg(t); ++ni) jobs.push_back(fmt("mut:%d:%d", fi, ni));
 	for (int fi = 0; fi < NFMT; ++fi) jobs.push_back(fmt("pad:%d:0", fi));
 	for (int st = 0; st < 5; ++st) jobs.push_back(fmt("dsc:%d", st));
+	{ int deepfmt[] = { 0, 4, 6 }; for (int fi : deepfmt) jobs.push_back(fmt("deep:%d", fi)); }
+	for (int fi = 0; fi < NFMT; ++fi) jobs.push_back(fmt("reuse:%d", fi));
 }
 
 // ---- long tokens
@@ -674,6 +684,121 @@ static void body_pad(Run &r, Ctx &x, int fi, int ni, const std::vector<uint8_t> 
 	free(in);
 }
 
+static int ev_record(void *ctx, const mpt::path *p, const mpt::value *val, int, int curr);
+// ---- deep nesting (job "deep:<fmt>"): the depth of the tree is chosen by the input, nothing may recurse once per level
+// shapes: N unclosed sections (parse fails at end of input, the temporary tree of depth N is released), N sections opened
+// and closed again, N value-only lines; targets: empty root, the nested populated root, a root that already holds the
+// result of the same document.  The ledger is not used here (its table holds 2^18 blocks): ASan + fault containment only.
+static const size_t DEEPN[] = { 1000, 30000, 100000 };
+static void body_deep(Run &r, Ctx &x, int fi)
+{
+	warmup();
+	mpt::parser_format f; mpt::mpt_parse_format(&f, FMT[fi].str);
+	std::string fam = FMT[fi].family;
+	int shape = (int) x.choose(3);
+	size_t N = DEEPN[x.choose(3)];
+	int target = (int) x.choose(3);
+	std::string open, close, doc;
+	if (fam == "pre") { open = std::string("a") + (char) f.sstart; close = std::string(1, (char) f.send); }
+	else { open = std::string(1, (char) f.sstart) + "a\n"; close = std::string(1, (char) f.send) + "\n"; }
+	if (shape == 0) for (size_t i = 0; i < N; ++i) doc += open;
+	else if (shape == 1) { for (size_t i = 0; i < N; ++i) doc += open; for (size_t i = 0; i < N; ++i) doc += close; }
+	else for (size_t i = 0; i < N; ++i) doc += "v\n";
+	static const char *SHN[] = { "unclosed sections", "sections opened and closed", "value-only lines" };
+	static const char *TGN[] = { "empty-root", "same-document-root", "nested-root" };   // (the last leaf of the choice tree is not one of the known faulting cases)
+	std::string d0 = fmt("format %s (%s), %zu %s (%zu bytes), target %s", FMT[fi].id, FMT[fi].str ? FMT[fi].str : "NULL", N, SHN[shape], doc.size(), TGN[target]);
+	std::string sig = std::string("parse_node|") + FMT[fi].family + "|deep|";
+	if (r.replaying) r.note("%s", d0.c_str());
+	++r.states; r.count("deep:cases");      // counted at once: a faulting case ends the worker process
+	mpt::node *root = mpt::mpt_node_new(0);
+	asan_error();
+	if (target) {
+		const char *t = target == 2 ? SHAPE_TXT[1] : doc.c_str();
+		Src s0((const uint8_t *) t, strlen(t), -2);
+		mpt::parser_context c0; c0.src.getc = src_getc; c0.src.arg = &s0; c0.src.line = 1;
+		r.hint((sig + "populate-target").c_str());
+		++r.transitions;
+		mpt::mpt_parse_node(root, &c0, target == 2 ? 0 : FMT[fi].str);
+		if (target == 1) r.count("deep:target holds the same deep document");
+	}
+	Snap before; snapshot(root, before, false);
+	if (!before.ok) { r.violation(sig + "result-tree-broken", d0 + ": target before the parse: " + before.why); return; }
+	Src src((const uint8_t *) doc.data(), doc.size(), -2);
+	mpt::parser_context ctx; ctx.src.getc = src_getc; ctx.src.arg = &src; ctx.src.line = 1;
+	r.hint((sig + TGN[target]).c_str());
+	++r.transitions;
+	int ret = mpt::mpt_parse_node(root, &ctx, FMT[fi].str);
+	if (asan_error()) { r.violation(sig + "asan", d0 + fmt(": mpt_parse_node returned %d; AddressSanitizer reported an invalid memory access", ret)); return; }
+	Snap after; snapshot(root, after, false);
+	if (r.replaying) r.note("mpt_parse_node -> %d, %zu nodes before, %zu after", ret, before.nodes.size(), after.nodes.size());
+	if (asan_error() || !after.ok) { r.violation(sig + (ret < 0 ? "failed-parse-changed-tree" : "result-tree-broken"), d0 + fmt(": mpt_parse_node returned %d; target tree: %s", ret, after.ok ? "walking it touches released memory" : after.why)); return; }
+	if (ret < 0) { r.count("deep:failed parse releases a deep temporary tree"); if (after.canon != before.canon || after.nodes != before.nodes) { r.violation(sig + "failed-parse-changed-tree", d0 + fmt(": mpt_parse_node returned %d and changed the target (%zu nodes before, %zu after)", ret, before.nodes.size(), after.nodes.size())); return; } }
+	r.hint((sig + "clear-target").c_str());
+	mpt::mpt_node_clear(root);
+	if (ret >= 0) r.count("deep:successful parse, deep tree cleared");
+	if (asan_error()) { r.violation(sig + "asan", d0 + ": clearing the target afterwards: AddressSanitizer reported an invalid memory access"); return; }
+	free(root);
+}
+
+// ---- context re-use (job "reuse:<fmt>"): one parser_context for two inputs in a row, the way mpt_parse_folder and the
+// C++ parser class use it (only source and line are set again, mpt_parse_node/parser::read set prev).  Whatever the first
+// input was and however its parse ended, the second parse must behave exactly like one with a fresh context.
+static uint64_t g_reuse, g_reuse_after_fail, g_reuse_after_ok, g_reuse_events;
+static void body_reuse(Run &r, Ctx &x, int fi, const std::vector<uint8_t> &tok)
+{
+	warmup();
+	std::string first, second;
+	size_t L1 = (r.tier == Thorough && (fi == 0 || fi == 1 || fi == 3 || fi == 4 || fi == 6)) ? 3 : 2;   // thorough: longer first inputs for one format per family
+	uint64_t big = x.choose(3);                 // first input: short string / 300 name characters / 70000 name characters
+	if (big) first.assign(big == 1 ? 300 : 70000, 'a');
+	for (size_t k = 0; k < (big ? 1 : L1); ++k) { uint64_t c = x.choose(tok.size() + 1); if (!c) break; first += (char) tok[c - 1]; }
+	for (size_t k = 0; k < (big == 2 ? 1 : 2); ++k) { uint64_t c = x.choose(tok.size() + 1); if (!c) break; second += (char) tok[c - 1]; }
+	std::string sig = std::string("context_reuse|") + FMT[fi].family + "|" + (big ? "long-first" : "plain") + "|";
+	auto d0 = [&]() { return fmt("format %s (%s), first input %s, second input %s with the same parser_context", FMT[fi].id, FMT[fi].str ? FMT[fi].str : "NULL", show((const uint8_t *) first.data(), first.size()).c_str(), show((const uint8_t *) second.data(), second.size()).c_str()); };
+	++r.states; ++g_reuse;
+	mpt::parser_format pf; int type = mpt::mpt_parse_format(&pf, FMT[fi].str);
+	mpt::input_parser_t next = mpt::mpt_parse_next_fcn(type);
+	uint8_t *in2 = (uint8_t *) malloc(second.size() ? second.size() : 1); memcpy(in2, second.data(), second.size());
+	// events: re-used context against fresh context
+	std::string e0, e1, e2; int r0, r1, r2;
+	{
+		Src s1((const uint8_t *) first.data(), first.size(), -2), s2(in2, second.size(), -2), s3(in2, second.size(), -2);
+		mpt::parser_context ctx; ctx.src.getc = src_getc; ctx.src.arg = &s1; ctx.src.line = 1; ctx.prev = mpt::parser_context::Section;
+		asan_error();
+		r.hint((sig + "parse_config").c_str());
+		r.transitions += 3;
+		r0 = LIB(mpt::mpt_parse_config(next, &pf, &ctx, ev_record, &e0));
+		ctx.src.arg = &s2; ctx.src.line = 1; ctx.prev = mpt::parser_context::Section;
+		r1 = LIB(mpt::mpt_parse_config(next, &pf, &ctx, ev_record, &e1));
+		bool asan = asan_error();
+		mpt::parser_context fresh; fresh.src.getc = src_getc; fresh.src.arg = &s3; fresh.src.line = 1; fresh.prev = mpt::parser_context::Section;
+		r2 = LIB(mpt::mpt_parse_config(next, &pf, &fresh, ev_record, &e2));
+		if (r.replaying) r.note("%s: first -> %d %s ; second (re-used context) -> %d %s ; second (fresh context) -> %d %s", d0().c_str(), r0, e0.c_str(), r1, e1.c_str(), r2, e2.c_str());
+		if (asan) { free(in2); r.violation(sig + "asan", d0() + fmt(": mpt_parse_config: first parse returned %d, the second one makes AddressSanitizer report an invalid memory access", r0)); return; }
+		if (r1 != r2 || e1 != e2) { free(in2); r.violation(sig + (r0 < 0 ? "second-parse-differs-after-failure" : "second-parse-differs-after-success"), d0() + fmt(": first parse returned %d; second parse returns %d events %s, with a fresh context %d events %s", r0, r1, e1.c_str(), r2, e2.c_str())); return; }
+		++(r0 < 0 ? g_reuse_after_fail : g_reuse_after_ok); if (!e1.empty()) ++g_reuse_events;
+	}
+	// stored values are read by mpt_parse_node (value copies): memory safety of the second parse (long first inputs; quick: only those)
+	if (big || r.tier == Thorough) {
+		Src s1((const uint8_t *) first.data(), first.size(), -2), s2(in2, second.size(), -2);
+		mpt::parser_context ctx; ctx.src.getc = src_getc; ctx.src.arg = &s1; ctx.src.line = 1;
+		ledger_housekeeping();
+		size_t lbase = ledger_live();
+		mpt::node *root = LIB(mpt::mpt_node_new(0));
+		r.hint((sig + "parse_node").c_str());
+		r.transitions += 2;
+		int n0 = LIB(mpt::mpt_parse_node(root, &ctx, FMT[fi].str));
+		ctx.src.arg = &s2; ctx.src.line = 1;
+		int n1 = LIB(mpt::mpt_parse_node(root, &ctx, FMT[fi].str));
+		bool asan = asan_error();
+		LIB(mpt::mpt_node_clear(root));
+		if (asan || asan_error()) { free(in2); r.violation(sig + "asan", d0() + fmt(": mpt_parse_node returned %d then %d; AddressSanitizer reported an invalid memory access", n0, n1)); return; }
+		if (ledger_live() != lbase + 1) { free(in2); r.violation(sig + "leak", d0() + fmt(": %zu allocation(s) survive clearing the target", ledger_live() - lbase - 1)); free(root); return; }
+		free(root);
+	}
+	free(in2);
+}
+
 // ---- format description sweep (job "dsc:<style>")
 // For each section style every description with 0..6 comment and 0..5 escape characters (capacity 4 / 3, so up to two surplus ones).
 //  (i) mpt_parse_format decodes into an exactly sized heap block: every field must be what the description says (listed characters
@@ -802,6 +927,8 @@ static void body(Run &r, Ctx &x, const Job &j)
 	else if (j.kind == "long") body_long(r, x, j.fi, j.ni);
 	else if (j.kind == "pad") body_pad(r, x, j.fi, j.ni, j.tok);
 	else if (j.kind == "dsc") body_dsc(r, x, j.fi);
+	else if (j.kind == "deep") body_deep(r, x, j.fi);
+	else if (j.kind == "reuse") body_reuse(r, x, j.fi, j.tok);
 	else body_mut(r, x, j.fi, j.ni, j.tok);
 }
 static const char *required[] = {
@@ -813,6 +940,8 @@ static const char *required[] = {
 	"long:section name ~256", "long:option name ~256", "long:value ~256", "long:quoted value ~65536", "long:section name ~65536", "long:option name ~65536", "long:value ~65536", "long:comment ~65536", "long:anonymous value ~65536",
 	"long:accepted", "long:refused", "pad:buffer fill sweep cases",
 	"dsc:descriptions within capacity", "dsc:descriptions with surplus comment characters", "dsc:descriptions with surplus escape characters",
+	"deep:cases", "deep:failed parse releases a deep temporary tree", "deep:successful parse, deep tree cleared", "deep:target holds the same deep document",
+	"reuse:second parse after a failed one", "reuse:second parse after a successful one", "reuse:second parse with events",
 	"dsc:documents compared", "dsc:documents using a first/last comment character", "dsc:documents using a first/last escape character", "dsc:documents with events",
 	"cfg:success, family pre", "cfg:success, family sep", "cfg:success, family enc", "cfg:success, family opt" };
 static void flush_counters(Run &r)
@@ -822,6 +951,9 @@ static void flush_counters(Run &r)
 	for (int p = 0; p < NPOS; ++p) for (int k = 0; k < 2; ++k) if (g_long[p][k]) { r.count(std::string("long:") + POSN[p] + (k ? " ~65536" : " ~256"), g_long[p][k]); g_long[p][k] = 0; }
 	for (int k = 0; k < 3; ++k) if (g_mut[k]) { r.count(fmt("mut:%d mutation(s)", k), g_mut[k]); g_mut[k] = 0; }
 	if (g_pad) r.count("pad:buffer fill sweep cases", g_pad); g_pad = 0;
+	{ uint64_t *v[] = { &g_reuse_after_fail, &g_reuse_after_ok, &g_reuse_events };
+	  const char *n[] = { "reuse:second parse after a failed one", "reuse:second parse after a successful one", "reuse:second parse with events" };
+	  for (int i = 0; i < 3; ++i) if (*v[i]) { r.count(n[i], *v[i]); *v[i] = 0; } }
 	{ uint64_t *v[] = { &g_dsc_within, &g_dsc_surplus_c, &g_dsc_surplus_e, &g_dsc_docs, &g_dsc_used_c, &g_dsc_used_e, &g_dsc_events };
 	  const char *n[] = { "dsc:descriptions within capacity", "dsc:descriptions with surplus comment characters", "dsc:descriptions with surplus escape characters", "dsc:documents compared", "dsc:documents using a first/last comment character", "dsc:documents using a first/last escape character", "dsc:documents with events" };
 	  for (int i = 0; i < 7; ++i) if (*v[i]) { r.count(n[i], *v[i]); *v[i] = 0; } }
